@@ -199,6 +199,18 @@ def trunk_shapes():
                     yield specs, links
 
 
+def staged_shapes():
+    """two-stage feedback: source -> staged -> partner -> staged (second input), where the staged component can push its initial data
+    late (only after one input was pulled) while it still waits for the other input"""
+    for dm in ("pull:i", "pull:i,j", "const"):
+        for pm in (("decl", "pull:i"), ("from_in:i", "pull:i")):
+            for jm in ("decl", "arg"):
+                S = ("S", [], [("o", "decl", "const")], 0)
+                G = ("G", [("i", "decl"), ("j", jm)], [("o", "decl", dm)], 0)
+                P = ("P", [("i", "decl")], [("o",) + pm], 0)
+                yield [S, G, P], [(("S", "o"), ("G", "i")), (("G", "o"), ("P", "i")), (("P", "o"), ("G", "j"))]
+
+
 def stuck_plus_arg_shapes():
     """a genuinely stuck pair (mutual initial pulls) next to components that hand in their infos on every call"""
     for src_mode in ("decl", "arg", "open"):
@@ -220,6 +232,7 @@ def run(tier, seed, agg):
     shapes += list(two_slot_shapes())
     shapes += list(stuck_plus_arg_shapes())
     shapes += list(trunk_shapes())
+    shapes += list(staged_shapes())
     cases = [dict(shapes=shapes[i : i + 40], lo_mode="two" if q else "all") for i in range(0, len(shapes), 40)]
     # the same with ConnectHelper(cache=False): the harness components hand in everything they can on every call, so nothing may depend on the cache
     nocache = list(single_slot_shapes(2, lambda n: [(0, 0), (1, 0)])) + list(two_slot_shapes()) + list(stuck_plus_arg_shapes())
